@@ -40,6 +40,7 @@ func init() {
 			{ID: "C11.17", Desc: "the cache's own Age and status fields are written after the origin-named fields were stripped", Run: func(c *Ctx) { ruleOwnFieldsSetLast(c, "C11.17") }, MinSites: 1},
 			{ID: "C11.18", Desc: "after a 304 the Age counts from the validation exchange (the write-back carries its times)", Run: func(c *Ctx) { ruleC08_2(c); renameRule(c, "C08.2", "C11.18") }, MinSites: 1},
 			{ID: "C11.19", Desc: "the entry's request time is read from the clock in front of the origin call and its response time behind it, on every path into the entry", Run: func(c *Ctx) { ruleTimeRoles(c, "C11.19") }, MinSites: 2},
+			{ID: "C11.20", Desc: "the difference added to the Age field's value is the response delay: both operands are the entry's own times", Run: func(c *Ctx) { ruleResponseDelayFromEntryTimes(c, "C11.20") }, MinSites: 1},
 		},
 	})
 }
